@@ -15,6 +15,8 @@ Not decided: correct rounding, zero-fraction removal and grouping for all values
 """
 import re
 
+from ..assembly import printed_assembly
+from ..absint import Unknown
 from ..facts import render, strip, walk, fn_key, AnchorLost, alternatives, cond_str, opplace, field_path
 from ..data import decode_fmt_template
 from .. import model
@@ -163,12 +165,14 @@ def n2_wiring(ctx):
             ctx.finding('N2', '%s/not-formatting' % item, '%s::print no longer renders its value through format_number' % item)
     # what each printer does with the rendering
     pb = ctx.facts.one(r'<compiler::percent::PercentItem as compiler::DataItem>::print$')
-    tmpl = [x for x in walk(pb.ret_expr()) if x[0] == 'const' and isinstance(x[3], str) and x[3].startswith('const b"')]
-    pieces = decode_fmt_template(tmpl[0][3]) if tmpl else None
-    if pieces == ['%', None]:
-        ctx.ok('N2', 'PercentItem::print = "%" + rendering', 'template', site=pb.loc)
+    try:
+        got = printed_assembly(pb, {}, [(r'formatter::format_number$', 'A')])
+    except Unknown as ex:
+        got = 'not extractable: %s' % ex
+    if got == ['%', 'A']:
+        ctx.ok('N2', 'PercentItem::print = "%" + rendering', 'absint', site=pb.loc)
     else:
-        ctx.finding('N2', 'PercentItem/template', 'PercentItem::print formats with template %s; expected "%%{}"' % (pieces,), site=pb.loc)
+        ctx.finding('N2', 'PercentItem/template', 'PercentItem::print assembles %s (A = the rendering of format_number); expected "%%" followed by the rendering' % (got,), site=pb.loc)
     db = ctx.facts.one(r'<compiler::dynamic_type::DynamicTypeItem as compiler::DataItem>::print$')
     r = render(db.ret_expr())
     if re.fullmatch(r'str::replace\(self\.1\.format, "\{value\}", format_number\(.*\)\)', r):
@@ -405,62 +409,36 @@ def _flag_truth(conds):
 
 
 def n6_money(ctx):
-    """N6 symbol placement table: the printed shape for each (symbol_on_left, space_between) - evaluated on the format
-    template and its arguments (argument phis selected by the same flags are expanded), so any way of writing the four
-    cases is accepted as long as the shapes are right"""
-    import itertools
+    """N6 symbol placement table: the text printed for each (symbol_on_left, space_between), read off an E6c walk of
+    MoneyItem::print (S = the currency symbol, A = the rendering of the amount) - format!, push_str or a helper alike"""
     ctx.rule('N6', 'money symbol placement table', floor=4)
     b = ctx.facts.one(r'<compiler::money::MoneyItem as compiler::DataItem>::print$')
     ctx.fn(b)
-    rows = {}
-    for a, conds in alternatives(b, b.ret_expr()):
-        tm = [x for x in walk(a) if x[0] == 'const' and isinstance(x[3], str) and x[3].startswith('const b"')]
-        disp = [x[2][0] for x in walk(a) if x[0] == 'call' and x[1].endswith('::new_display')]
-        if not tm or not disp:
-            ctx.finding('N6', 'arm-not-extractable', 'a result of MoneyItem::print is not a format!(..) of displayed values: %s' % render(a)[:100], site=b.loc)
-            continue
-        pieces = decode_fmt_template(tm[0][3])
-        if sum(1 for p_ in pieces if p_ is None) != len(disp):
-            ctx.finding('N6', 'arm-not-extractable', 'template %s does not match its %d arguments' % (pieces, len(disp)), site=b.loc)
-            continue
-        alts = [alternatives(b, d) for d in disp]
-        for combo in itertools.product(*alts):
-            allc = list(conds)
-            for _, c in combo:
-                allc += list(c)
-            left, space = _flag_truth(allc)
-            if left == 'X' or space == 'X':
-                continue
-            shape = ''
-            it = iter(combo)
-            for p_ in pieces:
-                if p_ is not None:
-                    shape += p_
-                    continue
-                val = strip(next(it)[0])
-                r = render(val)
-                if val[0] == 'const' and isinstance(val[2], str):
-                    shape += val[2]
-                elif r.endswith('.symbol'):
-                    shape += 'S'
-                elif 'format_number(' in r:
-                    shape += 'A'
-                else:
-                    shape += '<%s>' % r[:30]
-            for L in ([left] if left is not None else [True, False]):
-                for SP in ([space] if space is not None else [True, False]):
-                    rows.setdefault((L, SP), set()).add(shape)
+    cur = ctx.facts.adts.get('types::CurrencyInfo')
+    if not cur:
+        raise AnchorLost('struct types::CurrencyInfo not found')
+    names = [f['name'] if isinstance(f, dict) else f for f in cur['variants'][0]['fields']]
+    for need in ('symbol', 'symbol_on_left', 'space_between_amount_and_symbol'):
+        if need not in names:
+            raise AnchorLost('CurrencyInfo has no field %s' % need)
     for left in (True, False):
         for space in (True, False):
-            got = rows.get((left, space), set())
-            want = ('S' + (' ' if space else '') + 'A') if left else ('A' + (' ' if space else '') + 'S')
+            info = {'__adt__': 'types::CurrencyInfo', '__variant__': 'CurrencyInfo'}
+            for nm in names:
+                info[nm] = ('sym', 'currency.%s' % nm)
+            info.update({'symbol': ('str', ['S']), 'symbol_on_left': int(left), 'space_between_amount_and_symbol': int(space), 'decimal_digits': 2})
+            me = {'__adt__': 'compiler::money::MoneyItem', '__variant__': 'MoneyItem', '0': ('sym', 'price'), '1': info}
+            want = (['S'] + ([' '] if space else []) + ['A']) if left else (['A'] + ([' '] if space else []) + ['S'])
             name = '%s-%s' % ('left' if left else 'right', 'space' if space else 'nospace')
-            if not got:
-                ctx.finding('N6', 'missing/%s' % name, 'MoneyItem::print has no result for symbol_on_left=%s, space_between=%s' % (left, space), site=b.loc)
-            elif got != {want}:
-                ctx.finding('N6', 'placement/%s' % name, 'symbol_on_left=%s, space_between=%s prints %s (S = symbol, A = amount); expected %r' % (left, space, sorted(got), want), site=b.loc)
+            try:
+                got = printed_assembly(b, {1: me}, [(r'formatter::format_number$', 'A')])
+            except Unknown as ex:
+                ctx.finding('N6', 'arm-not-extractable', 'what MoneyItem::print returns for symbol_on_left=%s, space_between=%s could not be walked: %s' % (left, space, ex), site=b.loc)
+                continue
+            if got != want:
+                ctx.finding('N6', 'placement/%s' % name, 'symbol_on_left=%s, space_between=%s prints %r (S = symbol, A = amount); expected %r' % (left, space, ''.join(got), ''.join(want)), site=b.loc)
             else:
-                ctx.ok('N6', 'symbol_on_left=%s space=%s -> %r' % (left, space, want), 'gamma', site=b.loc)
+                ctx.ok('N6', 'symbol_on_left=%s space=%s -> %r' % (left, space, ''.join(want)), 'absint', site=b.loc)
 
 
 def n7_grouping(ctx):
